@@ -99,6 +99,14 @@ def run(run, model, proof):
             renamed.append((nm, d, m))
         files = renamed
         ids = ids_of(files)
+        # (added after the ids were collected: these files are in the directory but never what a look-up should find)
+        if rng.random() < 0.3:
+            # files whose decoding raises something unusual (a PCE identity below its fixed size: AttributeError; a valid-word count
+            # above 9: IndexError): every look-up over the directory steps over them
+            from props import c09 as _c09, c04 as _c04, c18 as _c18
+            files.append(("j_pce_%d.pel" % i, dirgen.set_ids(_c09.pce_small_pel(0x7200 + i), plid=0x7F000000 + i, obmc=0x7F000000 + i), dict(kind="junk", eid=0x7200 + i)))
+            wbody, _w = _c18.src_body(rng, "BD8D9999", proc=None, wcount=rng.choice([10, 12, 200]))
+            files.append(("j_wc_%d.pel" % i, dirgen.set_ids(_c04.mini_pel(b"O", [(b"PS", 1, 1, 0x2000, wbody)]), eid=0x7300 + i, plid=0x7F100000 + i, obmc=0x7F100000 + i), dict(kind="junk", eid=0x7300 + i)))
         run.evaluations += 1
         if nfiles >= 2:
             run.nontriv(tuple(sorted(ids)) + (i,))
